@@ -373,6 +373,35 @@ func jobC15hist(c *rt.Ctx) {
 		}
 	}
 	gen(nil)
+	// deeper histories over a reduced alphabet (caches with eviction, counters, state that needs
+	// several distinct calls to build up): depth <= 4 (thorough 6) over 6 operations
+	deepOps := []string{"VerifyGood", "VerifyCtxGoodOtherKey", "VerifyBadSigSameKeyMsg", "SignPure", "Batch4OneBad", "Batch5FailingEntropy"}
+	deepDepth := 4
+	if c.Thorough() {
+		deepDepth = 6
+	}
+	var dix []int
+	for _, nme := range deepOps {
+		for i, o := range c15ops {
+			if o.name == nme {
+				dix = append(dix, i)
+			}
+		}
+	}
+	var genDeep func(prefix []int)
+	genDeep = func(prefix []int) {
+		if len(prefix) > depth {
+			seqs = append(seqs, append([]int{}, prefix...))
+		}
+		if len(prefix) == deepDepth {
+			return
+		}
+		for _, o := range dix {
+			genDeep(append(prefix, o))
+		}
+	}
+	genDeep(nil)
+	c.Require(fmt.Sprintf("history/len%d", deepDepth))
 	sort.SliceStable(seqs, func(i, j int) bool { return len(seqs[i]) < len(seqs[j]) })
 	states := map[string]bool{}
 	for _, seq := range seqs {
